@@ -130,6 +130,27 @@ class Box(Generic[T]):
     def put(self, x: K) -> K: ...
     def mix(self, x: T, y: T) -> T: ...
 box_int: Box[int]
+V = TypeVar("V")
+class Slot(Generic[T]):
+    item: T
+    both: tuple[T, T]
+class Labelled(Slot[str], Generic[T]):      # rebinds the base's parameter and has one of its own under the same name
+    payload: T
+class Entry(Generic[K, V]):
+    key: K
+    value: V
+class Inverted(Entry[V, K], Generic[K, V]):  # the base's parameters in the other order
+    pass
+class Passes(Slot[T]):                       # hands its parameter on
+    pass
+class Fixed(Slot[int]):                      # not generic itself
+    pass
+slot_int: Slot[int]
+slot_str: Slot[str]
+lab_int: Labelled[int]
+inv_int_str: Inverted[int, str]
+pass_int: Passes[int]
+fixed_: Fixed
 @overload
 def ov(x: int) -> int: ...
 @overload
@@ -242,6 +263,9 @@ OPERANDS = [
     "second(b=v_int, a=v_str)", "first_of(v_int)", "first_of(v_int, v_str)", "first_of(v_int, v_int, v_float)", "pick(v_list)", "pick(v_lstr)", "pick([v_int, v_str])",
     "kw_either(a=v_int, b=v_int)", "kw_either(b=v_int, a=v_str)", "box_int.get()", "box_int.put('')", "box_int.put(v_list)", "box_int.mix(v_int, v_bool)", "generic(v_list)", "generic(x=v_int)",
     "generic(generic(v_str))", "either(generic(v_int), v_str)",
+    # attributes declared with a class type variable, read through instances of generic subclasses
+    "slot_int.item", "slot_str.item", "slot_int.both", "lab_int.item", "lab_int.payload", "inv_int_str.key", "inv_int_str.value", "pass_int.item", "fixed_.item",
+    "Slot[int]().item", "box_int.get", "slot_int.item + 1",
     # two branches / two operands of the same class that differ in their type arguments, or of related classes (mypy: a union or a join)
     "v_list if v_bool else v_lstr", "v_lstr if v_bool else v_list", "v_list if v_bool else v_list", "v_dict if v_bool else v_dint", "v_set if v_bool else v_sstr",
     "v_list or v_lstr", "v_list and v_lstr", "v_lstr or v_list", "v_int if v_bool else v_bool", "v_mylist if v_bool else v_list", "v_list if v_bool else v_mylist",
